@@ -378,7 +378,15 @@ class Bounds:
                         elif op in ('post++', '++', '+=') and depth < MAXD:
                             # x++ : lower bound survives (no wrap assumed for the lower side only when type is wide)
                             prev = self.var(X, node, (b, j), depth + 1)
-                            results.append(B(prev.lo, None, bot=prev.bot))
+                            nb_ = B(prev.lo, None, bot=prev.bot)
+                            if op == '+=' and rhs is not None and not prev.bot and prev.hi is not None and prev.lo is not None \
+                                    and not any(a_['k'] in ('WhileStmt', 'ForStmt', 'DoStmt') for a_ in f.ancestors(n)):
+                                # a single `x += e` outside any loop: plain interval addition (inside a loop the upper bound would climb for ever)
+                                rb_ = self._ev(rhs, (b, j), depth + 1)
+                                tr_ = type_range(node.get('t'))
+                                if not rb_.bot and rb_.lo is not None and rb_.hi is not None and tr_ is not None and prev.lo + rb_.lo >= tr_[0] and prev.hi + rb_.hi <= tr_[1]:
+                                    nb_ = B(prev.lo + rb_.lo, prev.hi + rb_.hi)
+                            results.append(nb_)
                         elif op == '-=' and rhs is not None and depth < MAXD:
                             # x -= e with e >= 0: upper bounds (numeric and symbolic) survive; x -= x % c keeps x >= 0
                             prev = self.var(X, node, (b, j), depth + 1)
